@@ -209,85 +209,3 @@ fn u_arity_lambda() {
     kani::cover!(np == 0, "reach-nullary");
     std::mem::forget(f);
 }
-
-// ---- U-BIND-LOOP (C01 + C04): the parameter-binding loop of FunctionDef::call, sliced verbatim (rule T3) into
-// FunctionDef::verif_bind_loop. (FunctionDef::call as a whole with a lambda did not finish in 30 min even with the
-// HashMap substitution: dropping its Rc<RefCell<Heap>> argument makes CBMC explore the destruction of every heap cell.)
-// Parameter count and argument count are dispatched to CONSTANTS; the KIND of each parameter (required / optional /
-// rest, in ANY order - not only the documented shape) is symbolic.
-fn bind_loop_case(np: usize, n: usize) {
-    let kinds: [u8; 3] = [kani::any(), kani::any(), 0];
-    kani::assume(kinds[0] < 3 && kinds[1] < 3);
-    let def = lambda(&kinds, np);
-    let accepted = def.get_arity().can_accept(n);
-    kani::assume(accepted);                      // the loop only runs after check_arity succeeded (U-ARITY-LAMBDA)
-    let f = FunctionDef::Lambda(def);
-    let heap = Rc::new(RefCell::new(Heap::verif_empty()));
-    let args = args_vec(n);
-    let a: [Value; 4] = [
-        if n > 0 { args[0] } else { Value::Null }, if n > 1 { args[1] } else { Value::Null },
-        if n > 2 { args[2] } else { Value::Null }, Value::Null ];
-    let mut map: HashMap<String, Value> = HashMap::new();
-    let r = match &f {
-        FunctionDef::Lambda(d) => f.verif_bind_loop(&d.args, &args, &heap, &mut map),
-        _ => Ok(()),
-    };
-    // C01: no panic above (index out of range etc. are proof obligations); a parameter left without an argument is an error
-    match &r {
-        Ok(()) => {
-            let names = ["p0", "p1"];
-            let mut i = 0;
-            while i < np {
-                // later parameters of the same name would overwrite earlier ones; names are distinct here
-                let got = map.get(names[i]).copied();
-                match kinds[i] {
-                    0 => assert!(matches!(&got, Some(v) if same_value(v, &a[i])), "U-BIND-LOOP#required-parameter-is-bound-to-the-argument-at-its-position"),
-                    1 => {
-                        let want = if i < n { a[i] } else { Value::Null };
-                        assert!(matches!(&got, Some(v) if same_value(v, &want)), "U-BIND-LOOP#optional-parameter-is-the-argument-or-null");
-                    }
-                    _ => check_rest(got, &heap, &a, i, n),
-                }
-                i += 1;
-            }
-            assert!(map.len() == np, "U-BIND-LOOP#exactly-the-parameters-are-bound");
-        }
-        Err(_) => {
-            assert!(!documented_shape(&kinds, np), "U-BIND-LOOP#documented-shapes-always-bind");
-        }
-    }
-    kani::cover!(r.is_err(), "reach-binding-error");
-    kani::cover!(r.is_ok() && np == 2 && kinds[1] == 2 && n == 3, "reach-rest-with-two");
-    std::mem::forget(r); std::mem::forget(f); std::mem::forget(heap); std::mem::forget(map); std::mem::forget(args);
-}
-
-fn check_rest(got: Option<Value>, heap: &Rc<RefCell<Heap>>, a: &[Value; 4], i: usize, n: usize) {
-    match got {
-        Some(Value::List(p)) => {
-            let hb = heap.borrow();
-            match hb.get(p.index()) {
-                Some(crate::heap::HeapValue::List(items)) => {
-                    let want_len = if n > i { n - i } else { 0 };
-                    assert!(items.len() == want_len, "U-BIND-LOOP#rest-parameter-collects-exactly-the-remaining-arguments");
-                    let mut j = 0;
-                    while j < items.len() { assert!(same_value(&items[j], &a[i + j]), "U-BIND-LOOP#rest-parameter-keeps-argument-order"); j += 1; }
-                }
-                _ => assert!(false, "U-BIND-LOOP#rest-parameter-is-a-list"),
-            }
-        }
-        _ => assert!(false, "U-BIND-LOOP#rest-parameter-is-a-list"),
-    }
-}
-
-#[kani::proof]
-#[kani::unwind(5)]
-#[kani::stub(alloc::fmt::format, crate::verif_common::fmt_stub)]
-#[kani::stub(crate::functions::FunctionDef::get_name, name_stub)]
-fn u_bind_loop() {
-    let c: u8 = kani::any();
-    match c % 12 {
-        0 => bind_loop_case(0, 0), 1 => bind_loop_case(0, 1), 2 => bind_loop_case(1, 0), 3 => bind_loop_case(1, 1),
-        4 => bind_loop_case(1, 2), 5 => bind_loop_case(2, 0), 6 => bind_loop_case(2, 1), 7 => bind_loop_case(2, 2),
-        8 => bind_loop_case(2, 3), 9 => bind_loop_case(1, 3), 10 => bind_loop_case(0, 2), _ => bind_loop_case(2, 4),
-    }
-}
